@@ -74,7 +74,7 @@ func VerifBatchDebounce() {
 // A subscriber that never reads (more events outstanding than its buffer) and then leaves must not block delivery to
 // the other subscriber, later Batch calls or Close.
 //
-//verif:harness prop=C10 name=batch_departure threads=5 sched=delay preempt=1 t_preempt=2 unwind=14 witness=lenient
+//verif:harness prop=C10 name=batch_departure threads=8 sched=delay preempt=1 t_preempt=2 unwind=14 witness=lenient
 func VerifBatchDeparture() {
 	start := zzverif.TimeFromNanos(1_000_000_000)
 	clk := zzverifstubs.NewClock(start)
@@ -83,9 +83,11 @@ func VerifBatchDeparture() {
 	stalled := make(chan int) // never read
 	ctx1, leave := context.WithCancel(context.Background())
 	s2 := &vSub{ch: make(chan int)}
+	s3 := &vSub{ch: make(chan int)} // a second staying subscriber, behind the first in the fan-out
 	b.Subscribe(ctx1, stalled)
-	b.Subscribe(context.Background(), s2.ch)
+	b.Subscribe(context.Background(), s2.ch, s3.ch)
 	go vConsume(s2)
+	go vConsume(s3)
 	n := 5 // buffer 2 (scaled from 50) + 1 held by the forwarder + 2
 	leaveAfter := zzverif.Choose("leave_after", n+1)
 	if !zzverif.Symbolic() {
@@ -109,9 +111,11 @@ func VerifBatchDeparture() {
 	}
 	leave()
 	zzverif.WaitQuiescent()
-	zzverif.Assert(len(s2.got) == n, "staying_subscriber_gets_every_event")
-	for i := 0; i < len(s2.got); i++ {
-		zzverif.Assert(s2.got[i] == 101+i, "staying_subscriber_order")
+	for _, c := range []*vSub{s2, s3} {
+		zzverif.Assert(len(c.got) == n, "staying_subscriber_gets_every_event")
+		for i := 0; i < len(c.got); i++ {
+			zzverif.Assert(c.got[i] == 101+i, "staying_subscriber_order")
+		}
 	}
 	b.Close()
 	zzverif.WaitQuiescent()
